@@ -1,6 +1,6 @@
 (* C06 — slots.  Theorems only. *)
 From V Require Import Base.Bytes Base.Val Model.Stack Model.Truthy Model.Loops Model.Include Model.Slots
-  Proofs.StackP Proofs.SlotsP.
+  Proofs.StackP Proofs.SlotsP Model.LayoutSlots Proofs.LayoutSlotsP.
 (* 1. a <slot> for which content was supplied renders that content, evaluated in the includer's
       scopes plus one scope with the props the slot binds (declared name / destructured / direct),
       under the includer's own slot closure *)
@@ -66,3 +66,24 @@ Print Assumptions C06_slot_in_loop_step.
 Theorem C06_no_leak : forall w fuel s c t o s', scopes s <> [] -> clo_ok c -> eval w fuel s c t = Ok (o, s') -> s' = s.
 Proof. exact slots_no_leak. Qed.
 Print Assumptions C06_no_leak.
+
+(* 5. slots a page hands to its layout (template_layout.go, evalSlot's inherited branch; Model/LayoutSlots.v):
+      a slot of the layout - or of a supplied content - for which the page supplied content shows that content,
+      expanded in turn with the slot's name remembered ... *)
+Theorem C06_inherited_slot_filled : forall f t chain n fb c, lcontent t n = Some c -> ~ In n chain ->
+  expand (S f) t chain (LSlot n fb) = expand_all f t (n :: chain) c.
+Proof. exact slot_filled. Qed.
+Print Assumptions C06_inherited_slot_filled.
+(* ... its fallback exactly when the page supplied nothing under that name ... *)
+Theorem C06_inherited_slot_fallback : forall fuel t chain n fb, lcontent t n = None ->
+  expand fuel t chain (LSlot n fb) = expand_all fuel t chain fb.
+Proof. exact slot_unsupplied. Qed.
+Print Assumptions C06_inherited_slot_fallback.
+(* ... and also when it is met again inside its own content, however indirectly (instead of expanding without end) *)
+Theorem C06_inherited_slot_inside_itself : forall fuel t chain n fb, In n chain ->
+  expand fuel t chain (LSlot n fb) = expand_all fuel t chain fb.
+Proof. exact slot_inside_its_own_content. Qed.
+Print Assumptions C06_inherited_slot_inside_itself.
+Example C06_inherited_ring :
+  layout_slots [(0, [LText 1; LSlot 1 [LText 2]]); (1, [LText 3; LSlot 0 [LText 4]])] [LSlot 0 [LText 5]; LSlot 7 [LText 6]] = Some [1; 3; 4; 6].
+Proof. exact ring_ends. Qed.
